@@ -138,13 +138,19 @@ Frame(p) == LET s == Heads(p) IN [h |-> s.h, nxt |-> s.nxt, mw |-> MaxWritten(p,
 
 (* the definition of register r that reaches pc in code order is a LOADK of *)
 (* a string constant                                                        *)
-RECURSIVE DefScan(_, _, _, _)
-DefScan(p, hd, q, r) ==
-    IF q < 0 THEN FALSE
-    ELSE IF hd.h[q + 1] /\ WritesReg(p, q, r)
-         THEN Op(p, q) = OP_LOADK /\ ArgBx(p, q) < NK(p) /\ p.kt[ArgBx(p, q) + 1] = 3
-         ELSE DefScan(p, hd, q - 1, r)
-DefIsStringK(p, hd, pc, r) == DefScan(p, hd, pc - 1, r)
+(* last instruction boundary in lo..hi that writes r, or -1; the right half is  *)
+(* searched first, so the cost is the distance to the definition and the       *)
+(* recursion depth is logarithmic                                              *)
+RECURSIVE LastWriter(_, _, _, _, _)
+LastWriter(p, hd, lo, hi, r) ==
+    IF lo > hi THEN -1
+    ELSE IF lo = hi THEN (IF hd.h[lo + 1] /\ WritesReg(p, lo, r) THEN lo ELSE -1)
+    ELSE LET mid == (lo + hi) \div 2
+             right == LastWriter(p, hd, mid + 1, hi, r)
+         IN IF right >= 0 THEN right ELSE LastWriter(p, hd, lo, mid, r)
+DefIsStringK(p, hd, pc, r) ==
+    LET q == LastWriter(p, hd, 0, pc - 1, r) IN
+    q >= 0 /\ Op(p, q) = OP_LOADK /\ ArgBx(p, q) < NK(p) /\ p.kt[ArgBx(p, q) + 1] = 3
 
 (* ---- open register windows (B = 0: "up to the stack top") --------------- *)
 (* In this VM every CALL and VARARG leaves the top right behind what it      *)
@@ -188,7 +194,13 @@ InstrViol(p, hd, pc) ==
         n == NW(p)
         nm == IF o <= OpMax THEN OpName[o + 1] ELSE "?"
         W(r, w)  == IF r >= p.nreg THEN {"reg-range:" \o nm \o ":" \o w} ELSE {}
-        R(r, w)  == IF r >= p.nreg /\ r > hd.mw THEN {"reg-range:" \o nm \o ":" \o w} ELSE {}
+        \* a register that is only read: beyond the declared count it is reported here unless a
+        \* writer (reported itself) reaches that high; inside the count it must be one that the
+        \* function entry or some instruction can write at all - otherwise the operand field does
+        \* not name a register of this function (e.g. a constant index that ended up in it)
+        R(r, w)  == IF r <= hd.mw THEN {}
+                    ELSE IF r >= p.nreg THEN {"reg-range:" \o nm \o ":" \o w}
+                    ELSE {"reg-unwritten:" \o nm \o ":" \o w}
         K(k, w)  == IF k >= NK(p) THEN {"const-range:" \o nm \o ":" \o w} ELSE {}
         RK(x, w) == IF x >= 256 THEN K(x - 256, w) ELSE R(x, w)
         KS(k, w) == IF k >= NK(p) THEN {"const-range:" \o nm \o ":" \o w}
